@@ -232,7 +232,7 @@ def gen_dyn_case(rng):
                 for x in reversed(twin["shape"]):
                     rm.insert(0, cur)
                     cur *= x
-                hide = list(twin[k][1]) == rm
+                hide = list(twin[k][1]) == rm or rng.random() < 0.3
                 st = [None if (hide and rng.random() < 0.5) else x for x in twin[k][1]]
                 off = None if rng.random() < 0.6 else twin[k][2]
                 case[k] = ("strided", st, off)
@@ -280,8 +280,8 @@ def gen_dyn_case(rng):
         m = max(st[p] for p in others)
         tied = [p for p in others if st[p] == m]
         return bounds[tied[0][0]][tied[0][1]] == max(bounds[p[0]][p[1]] for p in tied)
-    a, at = lay(s1, anchored(s1) and rng.random() < 0.6)
-    b, bt = lay(s2, anchored(s2) and rng.random() < 0.6)
+    a, at = lay(s1, (anchored(s1) or rng.random() < 0.35) and rng.random() < 0.6)
+    b, bt = lay(s2, (anchored(s2) or rng.random() < 0.35) and rng.random() < 0.6)
     shape = [_prod(x for x in bs) for bs in bounds]
     oa, ob = rng.choice([0, 0, 2]), rng.choice([0, 0, 5])
     twin = {"shape": shape, "bits": bits, "src": ("tsl", at, oa), "dst": ("tsl", bt, ob), "mode": "dyn-tsl", "rshape": list(shape)}
@@ -764,23 +764,28 @@ def check_case(case, static_case=None):
     return fails
 
 
+KLASSES = {9: KNOWN_CLASS, 10: "dynamic_step_no_static_anchor", 20: "dynamic_step_anchor_tie",
+           30: "dynamic_stride_in_block"}
+
+
 def classify(cases):
-    """Indices of the cases that are NOT Safe_lccb (Coq predicate safe_lccb on the reconstructed TSLs)."""
+    """Class code per case, computed by the Coq predicates: 9 = not Safe_lccb (static cases),
+    10/20/30 = dyn_class 1/2/3 (Model/C05Dyn.v), 0 = none."""
     if not cases:
-        return set()
+        return []
     lits = []
     for c in cases:
         shape = coqlist(optz(x) for x in c["shape"])
-        lits.append(f"({shape}, {coq_mlayout(c['src'])}, {coq_mlayout(c['dst'])})")
-    text = ("From Snax Require Import Base.Prelude Model.Tsl Model.C05Copy.\n"
-            f"Definition cases := {coqlist(lits)}.\n"
-            "Eval vm_compute in failing (fun c : list (option Z) * mlayout * mlayout => match c with (sh, a, b) => "
-            "safe_lccb (to_tsl sh a b) (to_tsl sh b a) end) cases.\n")
+        lits.append(f"({shape}, {coq_mlayout(c['src'])}, {coq_mlayout(c['dst'])}, {boollit(case_static(c))})")
+    text = ("From Snax Require Import Base.Prelude Model.Tsl Model.C05Copy Model.C05Dyn.\n"
+            f"Definition cases : list (list (option Z) * mlayout * mlayout * bool) := {coqlist(lits)}.\n"
+            "Eval vm_compute in map (fun c : list (option Z) * mlayout * mlayout * bool => match c with (sh, a, b, st) => "
+            "if st then (if safe_lccb (to_tsl sh a b) (to_tsl sh b a) then 0 else 9) else 10 * dyn_class sh a b end) cases.\n")
     ok, out = vlib.coq_eval("c05cls", text, timeout=300)
     lists = vlib.parse_all_eval_lists(out)
-    if not ok or len(lists) != 1:
-        return set()
-    return set(lists[0])
+    if not ok or len(lists) != 1 or len(lists[0]) != len(cases):
+        return [0] * len(cases)
+    return lists[0]
 
 
 def search(ctx, deep=False):
@@ -796,14 +801,11 @@ def search(ctx, deep=False):
         ctx.count({"L2": c, "failures": len(res)}, _prod(c["rshape"]) > 1, "l2" + case_key(c), f"L2:{c['mode']}")
         for what, detail in res:
             raw.append({"what": what, "case": c, "twin": tw, "detail": detail, "mlir": mlir_text(c)})
-    unsafe = classify([f["case"] for f in raw if case_static(f["case"])])
-    k = 0
-    for f in raw:
+    codes = classify([f["case"] for f in raw])
+    for f, code in zip(raw, codes):
         f["klass"] = None
-        if case_static(f["case"]):
-            if k in unsafe and f["what"] in ("element", "write-outside-destination", "read-outside-source"):
-                f["klass"] = KNOWN_CLASS
-            k += 1
+        if code in KLASSES and f["what"] in ("element", "write-outside-destination", "read-outside-source"):
+            f["klass"] = KLASSES[code]
     seen, out = set(), []
     for f in sorted(raw, key=lambda f: _prod(f["case"]["rshape"])):
         key = (f["what"], f["klass"])
@@ -826,9 +828,11 @@ def _norm_case(c):
 
 
 def replay_known(ctx, entry):
-    c = _norm_case(entry["witness"])
-    fails = check_case(c)
-    return any(w == "element" for (w, _) in fails) and 0 in classify([c])
+    w = entry["witness"]
+    c = _norm_case(w["case"] if "case" in w else w)
+    tw = _norm_case(w["twin"]) if "twin" in w else c
+    fails = check_case(c, tw)
+    return any(x == "element" for (x, _) in fails) and KLASSES.get(classify([c])[0]) == entry["class"]
 
 
 def replay(ctx, obj):
@@ -847,7 +851,7 @@ def replay(ctx, obj):
     res = check_case(c, tw)
     for r in res:
         print("FAIL", r)
-    print("Safe_lccb:", 0 not in classify([c]) if case_static(c) else "n/a (dynamic)")
+    print("class code (9 = not Safe_lccb, 10/20/30 = dynamic classes, 0 = none):", classify([c])[0])
     return 1 if res else 0
 
 
